@@ -158,6 +158,14 @@ Definition absorb_kill (c : kcfg) (inh : option Z) : kcfg := mkK (k_sleep c) inh
 Definition spawn_connect (c : kcfg) (inh : option Z) (now : Z) : option Z :=
   if kill_passed (absorb_kill c inh) now then None else Some now.
 
+(* the runtime kill-date update (muxHandleInternal, MvTime / timeKillDate): u = Unix seconds,
+   0 clears, every other value is stored as it is -- also one that has already passed (the next
+   wait() then shuts the client down).  Instants of the model are ns since 2023-01-01 00:00 UTC *)
+Definition epoch0_unix : Z := 1672531200.
+Definition kill_update (u : Z) : option Z :=
+  if u =? 0 then None else Some ((u - epoch0_unix) * 1000000000).
+Definition with_kill (c : kcfg) (k : option Z) : kcfg := mkK (k_sleep c) k (k_work c).
+
 (* the whole client: first script item = the initial Connect (only i_dur / i_fail are used) *)
 Definition client (recheck : bool) (c : kcfg) (script : list item) (t0 : Z) : list (Z * bool) :=
   match script with
@@ -241,6 +249,8 @@ Inductive case :=
 | CSwap (old : settings) (p : pvals) (obs : settings) (gate d sign delay : Z)
 (* the spawn path: the Profile's settings, the inherited kill date, the instant, the Connect instants observed *)
 | CSpawn (c : kcfg) (inh : option Z) (now : Z) (obs : list Z)
+(* a runtime kill-date update with value u, the kill date stored afterwards, then one wait() *)
+| CKillUpd (c : kcfg) (u : Z) (stored : option Z) (dl now : Z) (now' : Z) (closing' : bool)
 (* real time: a ticker armed with `sleep`, then a contact of `contact` ns during which nobody
    receives, then wait() with delay `sleep`; gaps = the measured ns between the end of an attempt and
    the start of the next.  Only "not (much) earlier than the model says" is compared. *)
@@ -274,6 +284,9 @@ Definition check (c : case) : bool :=
   | CWait c dl now cl now' cl' =>
       let '(n2, c2) := wait_step impl_recheck c dl now cl in (n2 =? now') && Bool.eqb c2 cl'
   | CKill c t0 sc obs => evs_eqb (client impl_recheck c sc t0) obs
+  | CKillUpd c u st dl now now' cl' =>
+      oz_eqb (kill_update u) st &&
+      (let '(n2, c2) := wait_step impl_recheck (with_kill c (kill_update u)) dl now false in (n2 =? now') && Bool.eqb c2 cl')
   | CSpawn c inh now obs =>
       match spawn_connect c inh now with
       | None => match obs with [] => true | _ => false end
